@@ -226,3 +226,11 @@ func TestLocate(t *testing.T) {
 		}
 	}
 }
+
+func TestToks(t *testing.T) {
+	b, _ := os.ReadFile(os.Getenv("C05_PROBE"))
+	for _, k := range rawTokens(string(b)) {
+		fmt.Printf("%d:%q ", k.line, k.s)
+	}
+	fmt.Println()
+}
